@@ -21,6 +21,10 @@ class Sink:
         self.cur = []
         self.pids = {}
         self.depth = 0
+        self.compose = False
+        self.wrapper_call = None
+        self.rounds = 0
+        self.kind, self.K, self.D = "bin", 2, 1
 
     def num(self, obj):
         for i, o in enumerate(self.learners):
@@ -49,17 +53,49 @@ class Sink:
         return R.NANC
 
 
+def _learner_rec(obj, base, k, sink):
+    """composition: the learner's own tree and evidence are recorded like a stand-alone T_HOO / HCT / VHCT session"""
+    from . import tbsession as TB
+    name = base.__name__
+    cfg = {"algo": name, "n": sink.rounds, "T": sink.rounds, "RU": sink.RU, "prm": {"nu": k.get("nu", 1), "rho": k.get("rho", 0.5)}}
+    try:
+        tabs = TB.tables(cfg)
+    except Exception:
+        tabs = None
+    if tabs is None or tabs.get("amb"):
+        return None
+    P = {"kind": sink.kind, "K": sink.K, "D": sink.D, "metric": "rank", "arity": A.arity(sink.kind, sink.K, sink.D), "algo": TB.SPEC_NAME[name], "tol": 5, "tolv": 6}
+    P.update({a: b for a, b in tabs.items() if a != "amb"})
+    return R.SessionRec(obj, P, extractor=TB.extractor(tabs["S"], tabs["RU"], name == "VHCT"), tid=0, call_timeout=60)
+
+
 def recording(base, sink):
     class Rec(base):
         def __init__(self, *a, **k):
             base.__init__(self, *a, **k)
             sink.learners.append(self)
             sink.cur.append(["new", len(sink.learners), R.fx(k.get("nu", -1), sink.S), R.fx(k.get("rho", -1), sink.S)])
+            self._lrec = _learner_rec(self, base, k, sink) if sink.compose else None
+
+        def _via(self, kind, fn, ev):
+            lr = self._lrec
+            out = lr._call(kind, fn, ev)
+            if kind != "recv" and "exc" not in ev and "hang" not in ev:
+                lr._point(ev, out)
+            lr.events.append(ev)
+            if lr.last_exc is not None:
+                e, lr.last_exc = lr.last_exc, None
+                raise e
+            return out
 
         def pull(self, time):
             sink.depth += 1
             try:
-                pt = base.pull(self, time)
+                if sink.depth == 1 and self._lrec is not None and not self._lrec.failed:
+                    kind = "glp" if sink.wrapper_call == "glp" else "pull"
+                    pt = self._via(kind, lambda: base.pull(self, time), {"k": kind, "t": int(time)})
+                else:
+                    pt = base.pull(self, time)
             finally:
                 sink.depth -= 1
             if sink.depth == 0:
@@ -67,7 +103,10 @@ def recording(base, sink):
             return pt
 
         def receive_reward(self, time, reward):
-            base.receive_reward(self, time, reward)
+            if self._lrec is not None and not self._lrec.failed:
+                self._via("recv", lambda: base.receive_reward(self, time, reward), {"k": "recv", "t": int(time), "r": sink.rcode(reward)})
+            else:
+                base.receive_reward(self, time, reward)
             sink.cur.append(["recv", sink.num(self), sink.rcode(reward)])
 
     Rec.__name__ = base.__name__
@@ -106,6 +145,8 @@ def _run(cfg):
     prm = cfg.get("prm", {})
     rhomax, numax = prm.get("rhomax", 0.9), prm.get("numax", 1)
     sink = Sink(SR, RU)
+    sink.compose = bool(cfg.get("compose"))
+    sink.rounds, sink.kind, sink.K, sink.D = n, cfg["kind"], cfg["K"], D
     basename = {"PCT": "HCT", "VPCT": "VHCT"}.get(name, prm.get("base", "T_HOO"))
     rec_cls = recording(A.BASE_ALGOS[basename], sink)
     P = {"kind": cfg["kind"], "K": cfg["K"], "D": D, "algo": name, "arity": A.arity(cfg["kind"], cfg["K"], D), "RU": RU, "SV": SV, "numax": R.fx(numax, SR)}
@@ -146,6 +187,7 @@ def _run(cfg):
 
     def call(kind, fn, **extra):
         sink.cur = []
+        sink.wrapper_call = kind
         before = len(rec.events)
         res = fn()
         ev = rec.events[-1]
@@ -173,4 +215,15 @@ def _run(cfg):
     tr = rec.finalize(extra_boxes=[tuple((b[0], b[1]) for b in box)])
     tr["cfg"] = {"algo": name, "kind": cfg["kind"], "K": cfg["K"], "D": D, "n": n, "T": T, "seed": cfg["seed"], "pattern": pat, "prm": {k: v for k, v in prm.items() if isinstance(v, (int, float, str))}, "box": cfg["box"]}
     tr["learners"] = len(sink.learners)
+    if sink.compose:
+        lts = []
+        for j, lo in enumerate(sink.learners):
+            lr = getattr(lo, "_lrec", None)
+            if lr is None:
+                continue
+            lr.tid = cfg["id"] * 100 + j + 1
+            lt = lr.finalize(extra_boxes=[tuple((b[0], b[1]) for b in box)])
+            lt["cfg"] = dict(tr["cfg"], learner=j + 1, under=name, algo=basename)
+            lts.append(lt)
+        tr["learner_traces"] = lts
     return tr
